@@ -269,6 +269,11 @@ FAMILY = [
     ('det', (V('X'),), ('and', ('call', 'a', V('X')), ('cut',))),
     ('det', (V('X'),), ('and', ('call', 'b', V('Y')), ('call', 'first', V('X')))),
     ('big', (A('k'), V('X')), ('and', ('call', 'a', V('X')), ('and', ('cut',), ('call', 'b', V('X'))))),
+    # 19-22: ground facts of one predicate with a rule and a non-ground fact between them (clause order is answer order)
+    ('n', (('n', '1'), A('a')), ('true',)),
+    ('n', (V('X'), A('b')), ('call', 'm', V('X'))),
+    ('n', (('n', '2'), A('c')), ('true',)),
+    ('n', (V('Y'), V('Y')), ('true',)),
 ]
 
 
@@ -554,6 +559,7 @@ PROGRAMS = [
     [(('p', 7), [12, 12])],
     [(('first', 1), [13]), (('pick', 1), [14]), (('user', 2), [15]), (('det', 1), [16, 17])],
     [(('big', 2), [18] * 60), (('first', 1), [13])],
+    [(('n', 2), [19, 20, 21, 22, 19, 21])],
 ]
 
 
